@@ -69,6 +69,10 @@ class Canon:
             if k in ("CStyleCastExpr", "CXXStaticCastExpr", "CXXFunctionalCastExpr", "CXXConstCastExpr") and n.get("ck") in ("NoOp",):
                 c = n.get("ch")
                 return self.form(c[0]) if c else "_"
+        if k == "CompoundStmt":
+            ch = [c for c in (n.get("ch") or []) if c.get("mac") not in DROP_MACROS and c.get("k") != "NullStmt"]
+            if len(ch) == 1 and ch[0].get("k") != "DeclStmt":
+                return self.form(ch[0])     # braces around a single statement are not structure
         kids = []
         if k == "LambdaExpr":
             for p in n.get("params", []):
